@@ -12,7 +12,9 @@ package main
 
 import (
 	"encoding/json"
+	"fmt"
 	"io/ioutil"
+	"net"
 	"os"
 	"path/filepath"
 	"time"
@@ -131,7 +133,36 @@ func portsRun(c map[string]interface{}) map[string]interface{} {
 		o["injected"] = inj
 		o["nat"] = k.DumpTable("nat")
 		o["files"] = portFiles()
+		// bind probe (private network namespace): which of the host ports set up so far are still held by a socket
+		held := [][]interface{}{}
+		for _, n := range names {
+			hp, _ := n[0].(int64)
+			proto, _ := n[1].(string)
+			if hp != 0 && !canBind(proto, int(hp)) {
+				held = append(held, []interface{}{hp, proto})
+			}
+		}
+		o["held"] = held
 		steps = append(steps, o)
 	}
 	return jmap{"res": "ok", "steps": steps, "names": names}
+}
+
+// canBind: can a new socket be bound to the port on every address (nobody holds it)
+func canBind(proto string, port int) bool {
+	switch proto {
+	case "TCP":
+		l, err := net.Listen("tcp4", fmt.Sprintf("0.0.0.0:%d", port))
+		if err != nil {
+			return false
+		}
+		_ = l.Close()
+	case "UDP":
+		c, err := net.ListenPacket("udp4", fmt.Sprintf("0.0.0.0:%d", port))
+		if err != nil {
+			return false
+		}
+		_ = c.Close()
+	}
+	return true
 }
